@@ -9,6 +9,8 @@
 //          only to the documented transaction-start caps, and exactly the written bytes are consumed.
 //          Correspondence: bytes, pack after Read, bytes left and carried-field set vs the driver.
 //   topack ToPack (Read + Process) agrees with Read followed by Process; Dbc after Process vs driver.
+//   proc   Process() of every type on filled packs (optional inputs empty / numeric / structured Data with
+//          empty parts; packs already processed once): every struct field and the panic outcome vs driver.
 //   pool   acquire / fill with markers / release / re-acquire histories, sequential and from 8
 //          goroutines: no marker survives; the pack equals the Clear() or the constructor constants
 //          of the model.
@@ -1034,9 +1036,101 @@ func stagePool() {
 	wg.Wait()
 }
 
+// ---------------------------------------------------------------- stage proc: Process() field by field
+
+// sortedT: a "t…" value with its entries sorted (maps have no order)
+func sortedT(v string) string {
+	if !strings.HasPrefix(v, "t") || v == "t-" {
+		return v
+	}
+	xs := strings.Split(v[1:], ",")
+	sort.Strings(xs)
+	return "t" + strings.Join(xs, ",")
+}
+
+// stageProcess: fill a pack (all wire and derived scalar fields), run Process() once or twice and
+// compare every struct field — derived pointers, maps and slices included — and the panic outcome
+// with the model's Process
+func stageProcess() {
+	per := 70
+	if env.Thorough {
+		per = 1200
+	}
+	type job struct {
+		pt   *ptype
+		ver  int32
+		pre  string
+		post map[string]string
+		out  vh.Outcome
+	}
+	var jobs []job
+	var lines []string
+	for i := range ptypes {
+		pt := &ptypes[i]
+		r := rng.Fork()
+		for n := 0; n < per; n++ {
+			ver := useVers[r.Intn(len(useVers))]
+			if r.Chance(20) {
+				ver = int32(r.Range(-3, 60000))
+			}
+			p := pt.mk()
+			p.SetVersion(ver)
+			rec := genUseRec(r, pt)
+			for _, f := range fieldsOf(p) { // derived booleans start either way
+				if f.typ.Kind() == reflect.Bool && f.name != "Flush" && r.Bool() {
+					rec[f.name] = "b1"
+				}
+			}
+			applyRec(p, rec)
+			if r.Chance(25) { // a pack that was processed before (derived fields already set)
+				vh.Guard(func() { p.Process() })
+				applyRec(p, genUseRec(r, pt))
+			}
+			pre := canon(p, true)
+			o := vh.Guard(func() { p.Process() })
+			j := job{pt, ver, pre, canonMap(p, true), o}
+			jobs = append(jobs, j)
+			lines = append(lines, fmt.Sprintf("Q %s %d %s", pt.name, ver, pre))
+		}
+	}
+	outs, err := vh.RunDriver(env.Driver, lines)
+	if err != nil {
+		vh.Die("%v", err)
+	}
+	for i, j := range jobs {
+		rep.Case(lines[i], true)
+		rep.Count("proc.type." + j.pt.name)
+		replay := map[string]interface{}{"stage": "proc", "type": j.pt.name, "ver": j.ver, "rec": j.pre}
+		if !j.out.OK() {
+			rep.Count("proc.panic")
+			if outs[i] != "panic" {
+				rep.Fail("correspondence", j.pt.name+":Process:panic", fmt.Sprintf("Process() panics (%s) where the model does not, on %s", vh.Clip(j.out.Panic, 100), vh.Clip(j.pre, 300)), replay)
+			}
+			continue
+		}
+		if !strings.HasPrefix(outs[i], "ok ") {
+			rep.Fail("correspondence", j.pt.name+":Process:panic", fmt.Sprintf("the model's Process panics where the implementation does not, on %s", vh.Clip(j.pre, 300)), replay)
+			continue
+		}
+		m := parseRec(outs[i][3:])
+		var d []string
+		for _, f := range fieldsOf(j.pt.mk()) {
+			if sortedT(m[f.name]) != sortedT(j.post[f.name]) {
+				d = append(d, fmt.Sprintf("%s: impl %s model %s", f.name, vh.Clip(j.post[f.name], 80), vh.Clip(m[f.name], 80)))
+			}
+		}
+		if len(d) > 0 {
+			if (j.pt.name == "UdpTxSqlPack" || j.pt.name == "UdpTxSqlParamPack" || j.pt.name == "UdpTxDbcPack") && maskSearch(j.pt.name, "") {
+				continue
+			}
+			rep.Fail("correspondence", j.pt.name+":Process:fields", "pack after Process() differs from the model: "+vh.Clip(strings.Join(d, "; "), 400), replay)
+		}
+	}
+}
+
 // ---------------------------------------------------------------- stage pool2: two uses of one pooled pack
 
-var useTexts = []string{"1", "0", "true", "123", "-7", "2147483647", "99999999999", "abc", "/a/b?x=1", "host:8080", "http://h/p"}
+var useTexts = []string{"1", "0", "true", "123", "-7", "2147483647", "2147483648", "-2147483649", "99999999999", "99999999999999999999999", "-99999999999999999999999", "+5", "T", "False", "abc", "/a/b?x=1", "host:8080", "http://h/p"}
 var useVers = []int32{10101, 10102, 10105, 10107, 10108, 10110, 20101, 20102, 20104, 30101, 30102, 30103, 40001, 50001, 50100, 50101, 7}
 
 // genUseRec: a record for one use of a pack that goes through Process(): optional inputs are often
@@ -1068,7 +1162,7 @@ func genUseRec(r *vh.Rng, pt *ptype) map[string]string {
 		}
 	case "UdpDBConPoolPack":
 		if r.Chance(70) {
-			w := func() string { return r.PickStr([]string{"", "7", "900", "jdbc:u", "x"}) }
+			w := func() string { return r.PickStr([]string{"", "7", "900", "jdbc:u", "x", "99999999999", "-99999999999", "-5"}) }
 			set("Data", w()+"|"+w()+"|"+w()+"|"+w()+r.PickStr([]string{"", ",bad|x", ",1|u|2|3"}))
 		} else if r.Chance(50) {
 			set("Data", "nothing")
@@ -1080,6 +1174,10 @@ func genUseRec(r *vh.Rng, pt *ptype) map[string]string {
 	case "UdpActiveStatsPack":
 		if r.Chance(40) {
 			rec["ActiveStats"] = "l" + vh.List([]string{"1", "2", "3"}[:r.Intn(4)])
+		}
+		if r.Chance(30) { // Data as it arrives from another agent: five parts, some not int16 / not numbers
+			w := func() string { return r.PickStr([]string{"", "7", "-3", "40000", "99999999999", "x", "2147483647"}) }
+			set("Data", w()+","+w()+","+w()+","+w()+","+w())
 		}
 	case "UdpTxSqlPack", "UdpTxSqlParamPack", "UdpTxDbcPack":
 		if r.Chance(50) {
@@ -1820,6 +1918,19 @@ func runReplay(path string) {
 			}
 			rep.Case("mask replay "+str, true)
 			maskOne(c["type"].(string), ver, connStr{str, g, secs, "replay"}, outs[0])
+		case "proc":
+			pt := typeByName(c["type"].(string))
+			if pt == nil {
+				continue
+			}
+			ver := int32(c["ver"].(float64))
+			rec := c["rec"].(string)
+			outs, err := vh.RunDriver(env.Driver, []string{fmt.Sprintf("Q %s %d %s", pt.name, ver, rec)})
+			if err != nil {
+				vh.Die("%v", err)
+			}
+			rep.Case("proc replay "+rec, true)
+			rep.Note("proc replay: model answers %s (packs with derived pointer fields cannot be rebuilt from a record; re-run the stage with the seed of the replay)", vh.Clip(outs[0], 200))
 		case "pool":
 			stagePool()
 		case "pool2":
@@ -1900,6 +2011,7 @@ func main() {
 	)
 	stageRT(cases)
 	stageToPack(cases)
+	stageProcess()
 	stagePool()
 	stagePool2()
 	stageMask()
